@@ -57,6 +57,16 @@ for j in jobs:
                  term=str(st.termination_cause))
     except BaseException as e:
         r["err"] = f"{type(e).__name__}: {str(e)[:200]}"
+    # the one-call convenience route
+    r.update(qs_ran=True, qs_ok=False, qs_out="", qs_term="")
+    try:
+        dev2 = FixedIO(bytes(j["inp"]))
+        with contextlib.redirect_stdout(io.StringIO()):
+            st2 = flipjump.assemble_and_run([Path(j["src"])], memory_width=j["w"], use_stl=j["stl"], fjm_version=FJMVersion(j["version"]),
+                                            warning_as_errors=j["werror"], io_device=dev2, print_time=False, print_termination=False)
+        r.update(qs_ok=True, qs_out=dev2.get_output(allow_incomplete_output=True).decode("latin-1"), qs_term=str(st2.termination_cause))
+    except BaseException as e:
+        r["qs_err"] = f"{type(e).__name__}: {str(e)[:200]}"
     res.append(r)
 json.dump(res, open(sys.argv[2], "w"))
 '''.replace("@@REPO@@", str(engines.REPO))
@@ -204,11 +214,12 @@ CHECK_DEADLOCK FALSE
     trace = []
     for k, r in enumerate(recs):
         a = api[k]
-        a = {x: a[x] for x in ("ran", "ok", "w", "version", "digest", "out", "term")}
+        a = {x: a[x] for x in ("ran", "ok", "w", "version", "digest", "out", "term", "qs_ran", "qs_ok", "qs_out", "qs_term")}
         # the API reports the cause as 'looping' etc. like the CLI text; silent CLI runs have no cause: blank it on both sides
         one, two = dict(r["one"]), dict(r["two"])
         if r["opts"]["s"]:
             a["term"] = ""
+            a["qs_term"] = ""
         for x in (one, two):
             x.pop("err", None)
         trace.append({"opts": r["opts"], "one": one, "two": two, "api": a})
